@@ -283,6 +283,8 @@ __CPROVER_assigns(*self, E, EL, G_EV, G_HES, G_UBYTE, __CPROVER_object_whole(g_t
 /* ---- C11/C12: output discipline ---- */
 /* [C01,C11,C12:one-write] */ __CPROVER_ensures(AT_WRITES == 0 || (AT_WRITES == 1 && RAN && g_old.state == CAT_STATE_FLUSH_IO_WRITE))
 /* [C01,C11,C12:write-byte] */ __CPROVER_ensures(AT_WRITES == 1 ==> (E.wr_ch == g_old.write_buf[g_old.position] && E.wr_ch != 0 && self->state == CAT_STATE_FLUSH_IO_WRITE && self->write_buf == g_old.write_buf && self->write_state == g_old.write_state && self->position == g_old.position + (E.wr_ok ? 1 : 0)))
+/* [C12,C15:read-stutter] */ __CPROVER_ensures((RAN && p_reading_state(g_old.state) && !E.rd_avail) ==> (p_at_same(&g_old, self, 1) && p_abuf_unchanged() && p_vdata_unchanged() && AT_HCALLS == 0 && AT_WRITES == 0 && AT_VWCALLS == 0 && AT_VRCALLS == 0))
+/* [C12:write-stutter]   */ __CPROVER_ensures((AT_WRITES == 1 && !E.wr_ok) ==> (p_at_same(&g_old, self, 0) && p_abuf_unchanged()))
 /* ---- C15: OK only when quiescent ---- */
 /* [C15:ret]             */ __CPROVER_ensures(RET == CAT_STATUS_OK || RET == CAT_STATUS_BUSY || RET == CAT_STATUS_ERROR_MUTEX_LOCK || RET == CAT_STATUS_ERROR_MUTEX_UNLOCK)
 /* [C15:ok-quiescent]    */ __CPROVER_ensures(RET == CAT_STATUS_OK ==> (p_ring_empty(self) && UST(self) == CAT_UNSOLICITED_STATE_IDLE && p_reading_state(self->state) && self->state == g_old.state && AT_READS == 1 && !E.rd_avail && AT_WRITES == 0 && AT_HCALLS == 0))
